@@ -66,6 +66,8 @@ def snap_entry(e):
     cont = e[2]
     if cont is None:
         c = None
+    elif not hasattr(cont, "notes"):
+        c = [("<content that is no container: %s>" % type(cont).__name__, 0, 0, 0)]     # (reported by whoever compares, not a crash here)
     else:
         c = [note_tuple(n) for n in cont.notes]
     return (e[0], e[1], c)
